@@ -67,6 +67,8 @@ def RK4Iterator(f, t, X_old, updateX):
 
     k1 = dxdt
     X_k1 = updateX(X_old, k1, dt/2)
+    #Own copy of k1: f may return the same work array on every call, which the next evaluation would overwrite
+    k1 = 1*k1
 
     k2 = f(t + dt/2, X_k1)
     #New array for the weighted sum: k1 can be the caller's own array (f may return its argument), so no += into it
